@@ -39,6 +39,10 @@ CORPUS = [
     '<div style="visibility:hidden;background:#000004;border:1px solid #000006">h<span style="visibility:visible;'
     'background:#000008;color:#000009">v</span></div>',
     '<div style="position:absolute;clip:rect(0px,20px,20px,0px);background:#000004">cl</div>',
+    # regression: input of the former finding collapse-paints-background (repaired by af29a5d)
+    '<p style="visibility:collapse;background:#000004;color:#000005;border:1px solid #000006">h</p>'
+    '<table style="border-collapse:separate"><tr><td hidden style="background:#000008;color:#000009">c</td>'
+    '<td style="background:#00000c;color:#00000d">d</td></tr></table>',
     # visibility is inherited and reset: visible inline content of every kind inside hidden inline / block boxes
     '<p style="color:#000005">t<span style="visibility:hidden;background:#000008;color:#000009;border:1px solid #00000a">'
     'h<span style="visibility:visible;background:#00000c;color:#00000d">v</span><b style="color:#000011">still hidden</b>'
@@ -1042,8 +1046,6 @@ FINDINGS = {
         'z-index:-1;background:#000008;color:#000009">inner</span></span>',
     'outline-escapes-overflow-clip':
         '<div style="overflow:hidden;background:#000004"><p style="outline:2px solid #00000b;color:#000009">x</p></div>',
-    'collapse-paints-background':
-        '<p style="visibility:collapse;background:#000004;color:#000005;border:1px solid #000006">h</p>',
     'clip-escaped-by-positioned-descendant':
         '<div style="position:absolute;clip:rect(0px,5px,5px,0px);background:#000004"><div style="position:relative;'
         'background:#000008;color:#000009">x</div></div>',
@@ -1119,6 +1121,6 @@ MANIFEST = {
             'Page.paint = draw_page on that result.',
     'note': 'Trusted: Lean kernel, the class-test extractor, the export of a laid-out page (attributes, geometry), the '
             'content-stream interpreter, the PDF-reader side of the ToUnicode check. Not modelled: rotate/skew '
-            'trigonometry, border side segments and dashed/double styles, outlines\' geometry, collapsed borders, images and gradients, font embedding. Six known findings are listed in '
+            'trigonometry, border side segments and dashed/double styles, outlines\' geometry, collapsed borders, images and gradients, font embedding. Five known findings are listed in '
             'known_findings.txt.',
 }
